@@ -21,6 +21,22 @@ struct after { int clock; uint64_t deadline; _Atomic int runs; };
 struct tmr { dispatch_source_t ds; int clock; uint64_t start, interval; _Atomic long total; _Atomic int fires; _Atomic int cancelled; int replaced; uint64_t new_start; };
 int main(int argc,char**argv){ uint64_t seed=argc>1?strtoull(argv[1],0,0):1; int na=argc>2?atoi(argv[2]):200, nt=argc>3?atoi(argv[3]):40; rs=seed;
   dispatch_queue_t q=dispatch_queue_create("c11", DISPATCH_QUEUE_CONCURRENT);
+  // very first, while nothing else wakes the manager thread (any wake-up services the heaps of all clocks and would hide a dead kernel timer):
+  // a lone pending timer is cancelled (or parked at FOREVER) before it fires: the clock's heap empties and the kernel timer is
+  // disarmed; timers armed on that clock afterwards must still fire
+  for(int c=0;c<3 && !viol;c++) for(int how=0; how<2 && !viol; how++){
+    dispatch_time_t base = c==0? DISPATCH_TIME_NOW : c==1? (1ull<<63) : DISPATCH_WALLTIME_NOW;
+    dispatch_source_t lone=dispatch_source_create(DISPATCH_SOURCE_TYPE_TIMER,0,0,q); dispatch_source_set_event_handler(lone,^{});
+    dispatch_source_set_timer(lone,dispatch_time(base,30ll*1000000000ll),DISPATCH_TIME_FOREVER,0); dispatch_activate(lone); usleep(60000);
+    if(how==0) dispatch_source_cancel(lone); else dispatch_source_set_timer(lone,DISPATCH_TIME_FOREVER,DISPATCH_TIME_FOREVER,0);
+    usleep(60000);
+    __block _Atomic int aran=0, tran=0; dispatch_after(dispatch_time(base,80000000ll),q,^{ atomic_store(&aran,1); });
+    dispatch_source_t ds=dispatch_source_create(DISPATCH_SOURCE_TYPE_TIMER,0,0,q); dispatch_source_set_event_handler(ds,^{ atomic_store(&tran,1); });
+    dispatch_source_set_timer(ds,dispatch_time(base,120000000ll),DISPATCH_TIME_FOREVER,0); dispatch_activate(ds);
+    for(int w=0; w<60 && !(atomic_load(&aran)&&atomic_load(&tran)); w++) usleep(50000);
+    if(!atomic_load(&aran)) fail("a dispatch_after block armed after the clock's only pending timer had been cancelled / parked never ran (3 s, 80 ms deadline): clock/how",c,how,0);
+    else if(!atomic_load(&tran)) fail("a timer armed after the clock's only pending timer had been cancelled / parked never fired (3 s, 120 ms start): clock/how",c,how,0);
+    dispatch_source_cancel(ds); dispatch_release(ds); if(how==1) dispatch_source_cancel(lone); dispatch_release(lone); }
   // first, while the manager thread has nothing else to do: re-arming the earliest timer to an earlier time: it must follow the new settings (fire within a generous 5 s of a 150 ms start,
   // not at the old start two minutes out) — alone in its heap, or with later timers below it
   for(int c=0;c<3 && !viol;c++) for(int others=0; others<2 && !viol; others++){
